@@ -123,7 +123,16 @@ def child_main(spec):
             if last:
                 state["armed"] = True
             try:
-                if s.startswith("CALL:"):
+                if s == "WITH:ok":
+                    with conn:  # a `with connection:` block left normally: not one of the ways to end a transaction
+                        pass
+                elif s == "WITH:exc":
+                    try:
+                        with conn:
+                            raise KeyError("raised inside the with block")
+                    except KeyError:
+                        pass
+                elif s.startswith("CALL:"):
                     getattr(conn, s[5:])()  # conn.commit() / conn.rollback(): not through the session's cursor
                 elif s.startswith("EM:"):
                     sql_, rows_ = s[3:].split("|", 1)
